@@ -134,7 +134,10 @@ static int pm_step_wait(pm_ctx_t *c, pm_state_t *s, int wi, int *cf, int *cr) {
         int nk = (int)c->etree[k];
         if (nk >= j) consume = 1; else { w->kcol = (signed char)nk; w->inner = 1; return 0; }
     }
-    for (int q = w->fsupc; q <= w->krep; q++) { if (q < j && !s->released[q]) pm_fail(c, 3, "consumed unreleased column"); if (w->consumed & (1u << q)) pm_fail(c, 3, "column consumed twice"); w->consumed |= (unsigned short)(1u << q); }
+    for (int q = w->fsupc; q <= w->krep; q++) { if (q < j && !s->released[q]) pm_fail(c, 3, "consumed unreleased column");
+        /* I2c (added after seeded change C03-4): what the wait loop consumes must have been marked busy at the start of the panel; an unmarked column is taken for a
+           finished descendant by the depth-first search, and its supernode's update is then applied in both stages */
+        if (q < j && !(w->marked & (1u << q))) pm_fail(c, 2, "column consumed in the pipeline stage although it was not marked busy: its update is applied twice (I2c)"); if (w->consumed & (1u << q)) pm_fail(c, 3, "column consumed twice"); w->consumed |= (unsigned short)(1u << q); }
     if (cf) *cf = w->fsupc; if (cr) *cr = w->krep;
     int nk = (int)c->etree[w->krep]; w->inner = 0;
     if (nk >= j) { if (w->marked & ~w->consumed) pm_fail(c, 2, "column marked busy but never waited for/consumed (I2b)"); w->ph = PH_COLSUPER; w->ci = 0; }
